@@ -161,6 +161,10 @@ def run(ck, m):
             for a_, b_ in ((c.left, c.comparators[0]), (c.comparators[0], c.left)):
                 if isinstance(a_, ast.Tuple) and any("renderable_data." in norm(e) or "self._render_args" in norm(e) for e in a_.elts):
                     cmp_, cur_side, oth_side = c, a_, b_
+    if len(D) == 1 and isinstance(D[0], ast.Constant) and D[0].value is True:
+        ck.ob("R4", miss_if, False, "the miss condition is always true: _render_ is called for every frame and the cache is never served (a cached frame whose settings are unchanged would be rendered again)",
+              stmt="_iterate: _render_ only on a miss")
+        return
     if cmp_ is None:
         # not the tuple form: every setting that can change must at least be compared UNCONDITIONALLY by a disjunct of the miss test
         disj = D
